@@ -2,6 +2,7 @@ SPECIFICATION Spec
 CONSTANT ActiveT = 20
 CONSTANT InactiveT = 30
 CONSTANT MaxRetries = 1
+CONSTANT MinU = 5
 POSTCONDITION TraceAccepted
 INVARIANT Agreement
 INVARIANT ReadyComplete
